@@ -135,12 +135,34 @@ def build_ref_gomod():
     return rc == 0
 
 
+FAILED_TABLES = {}
+
+
 def regen_tables():
+    """Regenerate coq/Gen/*.v. An emitter that cannot read its table leaves its file as it was and is
+    recorded in FAILED_TABLES; only the properties whose proofs depend on that file are affected
+    (table_failures_for), so that a change to one table cannot raise an alarm for an unrelated property."""
     os.makedirs(os.path.join(COQ, "Gen"), exist_ok=True)
     rc, out = sh([os.path.join(BUILD, "gotables"), REPO, os.path.join(COQ, "Gen")], timeout=120)
     if rc != 0:
         raise BuildError("gotables (translator could not read the Go tables)", out)
+    FAILED_TABLES.clear()
+    for line in out.splitlines():
+        if line.startswith("EMITTER-FAILED\t"):
+            _, name, reason = (line.split("\t", 2) + ["", ""])[:3]
+            FAILED_TABLES[name] = reason
     return out
+
+
+def table_failures_for(files):
+    """the failed emitters whose generated file is in the dependency closure of the given .v files"""
+    if not FAILED_TABLES:
+        return {}
+    coq_makefile()
+    clo = set()
+    for f in files:
+        clo.update(coq_closure(f))
+    return dict((n, r) for n, r in FAILED_TABLES.items() if ("Gen/%s.v" % n) in clo)
 
 
 def coq_makefile():
@@ -422,6 +444,10 @@ def prove(ctx, prop_file, extra_targets=()):
     files = [os.path.relpath(f, COQ) for f in
              sorted(_glob.glob(os.path.join(COQ, "Properties", prop_file + ".v")) +
                     _glob.glob(os.path.join(COQ, "Properties", prop_file + "_*.v")))]
+    bad = table_failures_for(files)
+    if bad:
+        raise BuildError("translator: the table(s) %s could not be read from the source (%s); the theorems of this property "
+                         "that rest on them are not re-checked against the current tree" % (", ".join(sorted(bad)), "; ".join(bad.values())), "")
     targets = [f + "o" for f in files]
     ok, log = coq_make(targets + list(extra_targets))
     closure = []
